@@ -30,14 +30,14 @@ class C18(Prop):
     pid = "C18"
     prop_file = "Props/C18.v"
     module = "Props.C18"
-    gen_deps = ["Table", "ParserFn", "WinconFn", "WinconStreamFn", "FmtFn"]
+    gen_deps = ["Table", "ParserFn", "WinconFn", "WinconStreamFn", "FmtFn", "Utf8parseFn"]
     harness = ("h-wincon", "hwincon")
     nontrivial_rule = ("cases: UTF-8 texts with grammar SGR sequences (C07's generator), other escape sequences and chunkings, through WinconStream::{write, write_all, write_vectored, "
                        "write_fmt, flush} over a scripted console writer (recording every write_colored(fg, bg, text) call; short counts, Interrupted / WouldBlock / Other errors; "
                        "all scripts up to depth 3 on short inputs). The working-tree wincon.rs is compiled into the harness by build.rs (two mechanical text edits). "
                        "With an accept-all console the merged calls must equal the capped runs of Spec/Sgr over Spec/Vt. non-trivial = distinct case with a colour change or a non-empty script")
     trusted = ["harness/h-wincon/build.rs: drops inner attributes and rewrites `all(windows, feature = \"wincon\")` to `feature = \"wincon\"` in the copied anstream sources",
-               "third-party utf8parse automaton (transcribed, tied)"]
+               "third-party utf8parse automaton: translated from the registry source of the version Cargo.lock pins and proved equal to Model/Utf8parse.v (Generated/Utf8parseFn.v, Proofs/Utf8parseGen.v; theorems under C01-C04, C20); also tied by the correspondence runs"]
     assumptions = ["the console writer follows the Write contract (count <= length)", "SGR sequences are inside the grammar of C07 for the spec-level comparison"]
 
     def streams(self, tier, rng):
